@@ -988,13 +988,20 @@ func c11AppFace(c *core.Ctx) {
 		as := addends(mk.Len)
 		if len(as) == 2 {
 			for k := 0; k < 2; k++ {
-				if h, isLen := core.LenOf(core.StripConv(as[k])); isLen && core.Same(h, hdr) && core.StripConv(as[1-k]) == l {
+				// (the allocation may sit in a private helper that is given the header and L)
+				if h, isLen := core.LenOf(core.StripConv(as[k])); isLen && core.Same(h, hdr) && (core.StripConv(as[1-k]) == l || core.StripConv(core.Resolve(core.StripConv(as[1-k]))) == l) {
 					okSize = true
 				}
 			}
 		}
 	}
-	c.Decide(okSize && core.InLoop(mk.Block()), "R11.2", "buffer-is-header+value-per-block", c.Pos(mk), "a fresh buffer of len(header octets read)+L bytes for every block", "the block buffer is not a fresh allocation of (header octets read)+L bytes per block: blocks are truncated, padded, or overwrite each other while the engine still parses them — or the header is sized from the shortest encoding of T and L instead of from the octets that were read")
+	perBlock := core.InLoop(mk.Block())
+	if !perBlock && mk.Parent() != fn {
+		if cs := p.Callers(mk.Parent()); len(cs) == 1 && core.InLoop(cs[0].Block()) {
+			perBlock = true
+		}
+	}
+	c.Decide(okSize && perBlock, "R11.2", "buffer-is-header+value-per-block", c.Pos(mk), "a fresh buffer of len(header octets read)+L bytes for every block", "the block buffer is not a fresh allocation of (header octets read)+L bytes per block: blocks are truncated, padded, or overwrite each other while the engine still parses them — or the header is sized from the shortest encoding of T and L instead of from the octets that were read")
 	okT, okV, reenc := false, false, ""
 	var full ssa.CallInstruction
 	core.InstrsDeep(fn, func(in ssa.Instruction) {
@@ -1049,7 +1056,7 @@ func c11AppFace(c *core.Ctx) {
 			return
 		}
 		if nb, ok := core.Strip(cl.Call.Args[0]).(*ssa.Call); ok && isCallTo(nb, core.CalleeID{Pkg: "std/encoding", Name: "NewBufferReader"}) {
-			okUp = unwrapBytes(nb.Call.Args[0]) == ssa.Value(mk)
+			okUp = unwrapBytes(nb.Call.Args[0]) == ssa.Value(mk) || unwrapBytes(core.Resolve(unwrapBytes(nb.Call.Args[0]))) == ssa.Value(mk)
 		}
 	})
 	c.Decide(okUp, "R11.2", "whole-block-handed-up", c.Pos(mk), "onPkt receives a reader over the whole buffer", "the engine is not given a reader over the whole block buffer")
